@@ -206,3 +206,163 @@ func zzTwoGoroutines(maxSwitches int) {
 		}
 	}
 }
+
+// ---- sequences: goroutine 1 runs two operations in a row, goroutine 2 one.
+// The state also carries the type table entry "a" of the shared scope, so that
+// a snapshot mixing two instants of the scope (values from one, types from
+// another) is told apart from every one-at-a-time ordering.
+
+var zzSeqWriters = []string{"Define", "Delete", "DefineType", "Set"}
+var zzSeqObservers = []string{"Copy", "DeepCopy", "Get", "Symbols", "Type", "TypeSymbols", "Define", "DefineType"}
+
+type zzState2 struct {
+	zzState
+	tHas bool
+}
+
+type zzOpResult2 struct {
+	zzOpResult
+	tpresent bool
+}
+
+func zzModelOp2(st *zzState2, op string, v int64) zzOpResult2 {
+	switch op {
+	case "DefineType":
+		st.tHas = true
+		return zzOpResult2{zzOpResult: zzOpResult{ok: true}}
+	case "Type":
+		return zzOpResult2{zzOpResult: zzOpResult{ok: st.tHas}}
+	case "TypeSymbols":
+		return zzOpResult2{zzOpResult: zzOpResult{ok: true}, tpresent: st.tHas}
+	case "Copy", "DeepCopy":
+		r := zzOpResult2{zzOpResult: zzOpResult{ok: true}, tpresent: st.tHas}
+		if st.sHas {
+			r.present, r.val = true, st.sVal
+		}
+		return r
+	}
+	for i, n := range zzAtomicOps {
+		if n == op {
+			return zzOpResult2{zzOpResult: zzModelOp(&st.zzState, i, v)}
+		}
+	}
+	return zzOpResult2{}
+}
+
+func zzRealOp2(s *Env, op string, v int64) zzOpResult2 {
+	switch op {
+	case "DefineType":
+		return zzOpResult2{zzOpResult: zzOpResult{ok: s.DefineType("a", int64(0)) == nil}}
+	case "Type":
+		_, err := s.Type("a")
+		return zzOpResult2{zzOpResult: zzOpResult{ok: err == nil}}
+	case "TypeSymbols":
+		return zzOpResult2{zzOpResult: zzOpResult{ok: true}, tpresent: len(s.GetTypeSymbols()) == 1}
+	case "Copy", "DeepCopy":
+		var c *Env
+		if op == "Copy" {
+			c = s.Copy()
+		} else {
+			c = s.DeepCopy()
+		}
+		rv, has := c.values["a"]
+		_, hasT := c.types["a"]
+		r := zzOpResult2{zzOpResult: zzOpResult{ok: true, present: has}, tpresent: hasT}
+		if has {
+			r.val = rv.Int()
+		}
+		return r
+	}
+	for i, n := range zzAtomicOps {
+		if n == op {
+			return zzOpResult2{zzOpResult: zzRealOp(s, i, v)}
+		}
+	}
+	return zzOpResult2{}
+}
+
+func zzResEq2(a, b zzOpResult2) bool {
+	if a.tpresent != b.tpresent {
+		return false
+	}
+	return zzResEq(a.zzOpResult, b.zzOpResult)
+}
+
+func zzStateEq2(a, b zzState2) bool {
+	if a.tHas != b.tHas {
+		return false
+	}
+	return zzStateEq(a.zzState, b.zzState)
+}
+
+func zzRunSeq(pre zzState2, w1, w2, o string, v1, v2, v3 int64) (r1, r2, r3 zzOpResult2, final zzState2) {
+	s, p := zzBuildPair(pre.zzState)
+	if pre.tHas {
+		s.types = map[string]reflect.Type{"a": reflect.TypeOf(int64(0))}
+	}
+	var wg sync.WaitGroup
+	wg.Add(2)
+	go func() {
+		r1 = zzRealOp2(s, w1, v1)
+		r2 = zzRealOp2(s, w2, v2)
+		wg.Done()
+	}()
+	go func() {
+		r3 = zzRealOp2(s, o, v3)
+		wg.Done()
+	}()
+	wg.Wait()
+	final.zzState = zzObserve(s, p)
+	_, final.tHas = s.types["a"]
+	return
+}
+
+// zzLinearizableSeq: the outcome equals one of the orders o;w1;w2, w1;o;w2, w1;w2;o.
+func zzLinearizableSeq(pre zzState2, w1, w2, o string, v1, v2, v3 int64, r1, r2, r3 zzOpResult2, final zzState2) bool {
+	any := false
+	for pos := 0; pos < 3; pos++ {
+		st := pre
+		var m1, m2, m3 zzOpResult2
+		if pos == 0 {
+			m3 = zzModelOp2(&st, o, v3)
+		}
+		m1 = zzModelOp2(&st, w1, v1)
+		if pos == 1 {
+			m3 = zzModelOp2(&st, o, v3)
+		}
+		m2 = zzModelOp2(&st, w2, v2)
+		if pos == 2 {
+			m3 = zzModelOp2(&st, o, v3)
+		}
+		same := zz.And(zz.And(zzResEq2(r1, m1), zzResEq2(r2, m2)), zz.And(zzResEq2(r3, m3), zzStateEq2(final, st)))
+		any = zz.Or(any, same)
+	}
+	return any
+}
+
+func ZZ_C13_D2_sequence()       { zzSequence(4, len(zzSeqWriters), len(zzSeqObservers)) }
+func ZZ_C13_D2_sequence_quick() { zzSequence(2, 3, 4) }
+
+func zzSequence(maxSwitches, nW, nO int) {
+	pre := zzState2{zzState: zzState{sHas: zz.Choose(2) == 1, pHas: zz.Choose(2) == 1, sVal: zz.Int64(), pVal: zz.Int64()}, tHas: zz.Choose(2) == 1}
+	w1 := zzSeqWriters[zz.Choose(nW)]
+	w2 := zzSeqWriters[zz.Choose(nW)]
+	o := zzSeqObservers[zz.Choose(nO)]
+	v1, v2, v3 := zz.Int64(), zz.Int64(), zz.Int64()
+	id := "C13.D2.linearizable/" + w1 + ";" + w2 + "|" + o
+	if zz.Symbolic() {
+		zz.SchedExplore(true, maxSwitches)
+		r1, r2, r3, final := zzRunSeq(pre, w1, w2, o, v1, v2, v3)
+		zz.SchedExplore(false, 0)
+		zz.Assert(zzLinearizableSeq(pre, w1, w2, o, v1, v2, v3, r1, r2, r3, final), id)
+		zz.Assert(zz.LocksHeld() == 0, "C13.D2.locks-released")
+		return
+	}
+	for i := 0; i < 20000; i++ {
+		r1, r2, r3, final := zzRunSeq(pre, w1, w2, o, v1, v2, v3)
+		if !zzLinearizableSeq(pre, w1, w2, o, v1, v2, v3, r1, r2, r3, final) {
+			zz.Assert(false, id)
+			return
+		}
+	}
+}
